@@ -15,7 +15,7 @@ error, never a guess.
                 + - * / ** % unary -, one comparison, max(a, b), len(v), int(e), self.method(args) (virtual: resolved
                 in the class being translated, then its bases)
   types       : double -> F ; int -> Z ; unsigned / loop variables / len -> nat ; double* -> list F ;
-                vector[int] -> list nat (the two vectors hold indices and counts) ; np.ndarray (2-D) -> list (list M)
+                vector[int] -> list nat (the two vectors hold indices and counts) ; np.ndarray (2-D array of doubles) -> list (list F)
 
 The generated definitions are parametrised by the arithmetic record (Base/Arith.v), so the theorems about them hold
 for reals and the same terms can be evaluated at rationals."""
@@ -108,15 +108,11 @@ def coerce(txt, frm, to):
     if (frm, to) == ("Z", "nat"): return "(Z.to_nat %s)" % txt
     if (frm, to) == ("Z", "F"): return "(fofZ A %s)" % txt
     if (frm, to) == ("nat", "F"): return "(fofZ A (Z.of_nat %s))" % txt
-    if (frm, to) == ("F", "M"): return txt      # amounts: the carrier of the cells (instantiated with F)
-    if (frm, to) == ("M", "F"): return txt
-    if (frm, to) == ("Z", "M"):
-        if txt == "0": return "mzero"
     raise Refuse("no coercion %s -> %s for %s" % (frm, to, txt))
 
 class Ctx:
     def __init__(self, tr, cls, meth):
-        self.tr = tr; self.cls = cls; self.meth = meth; self.types = {}; self.ret = None
+        self.tr = tr; self.cls = cls; self.meth = meth; self.types = {}; self.ret = None; self.final = "self"
 
 class Translator:
     def __init__(self, classes, prefix):
@@ -146,7 +142,7 @@ class Translator:
         T = cx.types
         if isinstance(e, ast.Constant):
             if isinstance(e.value, bool): raise Refuse("bool literal")
-            if isinstance(e.value, int): return (str(e.value) if e.value >= 0 else "(%d)" % e.value), "Z"
+            if isinstance(e.value, int): return ("%d%%Z" % e.value if e.value >= 0 else "(%d)%%Z" % e.value), "Z"
             if isinstance(e.value, float):
                 fr = Fraction(e.value)
                 if fr.denominator == 1: return "(fofZ A %s)" % (fr.numerator if fr.numerator >= 0 else "(%d)" % fr.numerator), "F"
@@ -172,7 +168,7 @@ class Translator:
             if isinstance(sl, ast.Tuple):
                 if bt != "mat" or len(sl.elts) != 2: raise Refuse("2-D index of %s" % bt)
                 i, it = self.expr(sl.elts[0], cx); j, jt = self.expr(sl.elts[1], cx)
-                return "(get2 mzero %s %s %s)" % (b, coerce(i, it, "nat"), coerce(j, jt, "nat")), "M"
+                return "(get2 (fofZ A 0) %s %s %s)" % (b, coerce(i, it, "nat"), coerce(j, jt, "nat")), "F"
             i, it = self.expr(sl, cx); i = coerce(i, it, "nat")
             if bt == "listF": return "(getv A %s %s)" % (b, i), "F"
             if bt == "listnat": return "(nth %s %s 0%%nat)" % (i, b), "nat"
@@ -186,13 +182,10 @@ class Translator:
         if isinstance(e, ast.BinOp):
             a, at = self.expr(e.left, cx); b, bt = self.expr(e.right, cx)
             op = type(e.op).__name__
-            if "F" in (at, bt) or "M" in (at, bt) or op in ("Div", "Pow"):
+            if "F" in (at, bt) or op in ("Div", "Pow"):
                 if op == "Mod": raise Refuse("float %")
                 f = {"Add": "fadd", "Sub": "fsub", "Mult": "fmul", "Div": "fdiv", "Pow": "fpow"}.get(op)
                 if not f: raise Refuse("operator %s" % op)
-                if "M" in (at, bt):
-                    if op != "Add": raise Refuse("amounts are only added")
-                    return "(madd %s %s)" % (coerce(a, at, "M"), coerce(b, bt, "M")), "M"
                 if op == "Div" and at != "F" and bt != "F": raise Refuse("integer division")
                 return "(%s A %s %s)" % (f, coerce(a, at, "F"), coerce(b, bt, "F")), "F"
             if at == "nat" and bt == "nat" and op in ("Add", "Mult", "Mod"):
@@ -316,7 +309,7 @@ class Translator:
                     i, it = self.expr(tg.slice.elts[0], cx); j, jt = self.expr(tg.slice.elts[1], cx)
                     r, rt = self.expr(rhs_ast, cx)
                     g = self.getter(oc, v.attr)
-                    return ["%slet %s := set_%s %s (set2 (%s %s) %s %s %s) in" % (pad, owner, g, owner, g, owner, coerce(i, it, "nat"), coerce(j, jt, "nat"), coerce(r, rt, "M"))]
+                    return ["%slet %s := set_%s %s (set2 (%s %s) %s %s %s) in" % (pad, owner, g, owner, g, owner, coerce(i, it, "nat"), coerce(j, jt, "nat"), coerce(r, rt, "F"))]
                 if isinstance(v, ast.Name) and T.get(v.id) == "listF":
                     i, it = self.expr(tg.slice, cx); r, rt = self.expr(rhs_ast, cx)
                     return ["%slet %s := upd %s %s %s in" % (pad, v.id, v.id, coerce(i, it, "nat"), coerce(r, rt, "F"))]
@@ -359,7 +352,7 @@ class Translator:
         pad = "  " * ind
         for k, s in enumerate(stmts):
             if isinstance(s, ast.Return):
-                if s.value is None: return self.seq(stmts[:k], cx, ind) + [pad + "self"]
+                if s.value is None: return self.seq(stmts[:k], cx, ind) + [pad + cx.final]
                 pre = self.seq(stmts[:k], cx, ind)
                 r, rt = self.expr(s.value, cx)
                 if cx.ret == "obj": return pre + [pad + r]
@@ -375,7 +368,7 @@ class Translator:
                 el = self.block(list(s.orelse) + list(rest), cx, ind + 1); cx.types = saved
                 return pre + ["%sif %s then" % (pad, c)] + th + ["%selse" % pad] + el
         if cx.ret != "void": raise Refuse("%s.%s can fall off its end" % (cx.cls, cx.meth))
-        return self.seq(stmts, cx, ind) + [pad + "self"]
+        return self.seq(stmts, cx, ind) + [pad + cx.final]
 
     def method(self, cls, meth):
         """translate meth as seen from an object of class cls; returns the Coq name"""
@@ -390,19 +383,25 @@ class Translator:
         except SyntaxError as e: raise Refuse("%s.%s does not parse: %s" % (owner, meth, e))
         cx = Ctx(self, cls, meth); cx.ret = ret
         for a, t in args: cx.types[a] = t
+        cx.types["self"] = "obj:" + cls
         cx.types.update(locs)
+        outs = [a for a in self.assigned(tree.body) if dict(args).get(a) == "listF"]
+        if outs:
+            if ret != "void" or len(outs) != 1 or "self" in self.assigned(tree.body): raise Refuse("%s.%s: output array next to other effects" % (owner, meth))
+            cx.final = outs[0]
         lines = self.block(tree.body, cx, 1)
         name = self.fname(cls, meth)
-        coqty = {"F": "F", "Z": "Z", "nat": "nat", "listF": "list F", "void": "%s_obj" % cls, "mat": "list (list M)"}
+        coqty = {"F": "F", "Z": "Z", "nat": "nat", "listF": "list F", "void": "%s_obj" % cls, "mat": "list (list F)"}
         sig = " ".join("(%s : %s)" % (a, coqty[t]) for a, t in args)
         rett = coqty[ret] if ret != "obj" else "%s_obj" % cls
+        if outs: rett = "list F"
         txt = "(* %s.%s%s *)\nDefinition %s (A : Arith F) (self : %s_obj) %s : %s :=\n%s.\n" % (
             owner, meth, "" if owner == cls else " (inherited by %s)" % cls, name, cls, sig, rett, "\n".join(lines))
         self.stack.pop(); self.done[key] = name; self.order.append(txt)
         return name
 
     def record(self, cls, with_M=False):
-        fs = self.fields(cls); coqty = {"F": "F", "Z": "Z", "nat": "nat", "listnat": "list nat", "mat": "list (list M)"}
+        fs = self.fields(cls); coqty = {"F": "F", "Z": "Z", "nat": "nat", "listnat": "list nat", "mat": "list (list F)"}
         names = sorted(fs)
         lines = ["Record %s_obj := mk_%s {" % (cls, cls)] + ["  %s : %s%s" % (self.getter(cls, f), coqty[fs[f]], ";" if i < len(names) - 1 else "") for i, f in enumerate(names)] + ["}."]
         for f in names:
